@@ -221,6 +221,10 @@ func (ss *SpecSet) parseFile(pkg, file, text string) error {
 				}
 				ss.Assumed = append(ss.Assumed, first+" "+curF.Key)
 			}
+			if prev := ss.Funcs[curF.Key]; prev != nil {
+				// a second block would silently replace the first one
+				return errf("duplicate contract block for %s (first at %s:%d)", curF.Key, prev.File, prev.Line)
+			}
 			ss.Funcs[curF.Key] = curF
 			curL, curT = nil, nil
 		case "callsite":
